@@ -135,9 +135,16 @@ func c18(c *Ctx) {
 					// the link drops, the application keeps calling command methods while it is down, then reconnects the same
 					// client: the new connection starts with the registration lines, once each, and nothing else before them
 					if (n/2)%2 == 0 {
+						cur := nick // the client's current nick when the link drops
+						if nick != "" && !strings.ContainsAny(nick, " :") && c.R.P(1, 3) {
+							// the nick it registered with was taken: it asked for the generator's next one and goes by that now
+							sess.srv.SendLine(":irc.test 433 * " + nick + " :Nickname is already in use")
+							sess.sync(5 * time.Second)
+							cur = client.DefaultNewNick(nick)
+						}
 						if welcomed := c.R.P(2, 3); welcomed && nick != "" && !strings.ContainsAny(nick, " :") {
 							// the usual case: the session had been welcomed before the link dropped
-							sess.srv.SendLine(":irc.test 001 " + nick + " :Welcome to the network " + nick + "!" + ident + "@host.example")
+							sess.srv.SendLine(":irc.test 001 " + cur + " :Welcome to the network " + cur + "!" + ident + "@host.example")
 							sess.sync(5 * time.Second)
 						}
 						sess.srv.EOF()
@@ -145,7 +152,7 @@ func c18(c *Ctx) {
 						time.Sleep(time.Millisecond)
 						sess.conn.Nick("elsewhere")
 						sess.conn.Privmsg("#c", "queued while the link was down")
-						rdesc := desc + fmt.Sprintf(", tracking=%v, link dropped, Nick() and Privmsg() called while down, Connect again", track)
+						rdesc := desc + fmt.Sprintf(", tracking=%v, current nick %q when the link dropped, Nick() and Privmsg() called while down, Connect again", track, cur)
 						if err := sess.conn.Connect(); err != nil {
 							c.SpecFail("spec", rdesc, "", "reconnect failed: "+err.Error(), rp)
 							continue
@@ -155,7 +162,7 @@ func c18(c *Ctx) {
 							srv2.WaitLines(want, 5*time.Second)
 							time.Sleep(5 * time.Millisecond)
 							cases = append(cases, Case{Desc: rdesc,
-								Spec: []string{fmt.Sprintf("spec18reg %s %s %s %s %s %s", b(capNeg), drv.H(pass), drv.H(nick), drv.H(ident), drv.H(name), drv.L(srv2.Lines()))},
+								Spec: []string{fmt.Sprintf("spec18reg %s %s %s %s %s %s", b(capNeg), drv.H(pass), drv.H(cur), drv.H(ident), drv.H(name), drv.L(srv2.Lines()))},
 								Tag:  "reconnect", Key: rdesc, Replay: map[string]interface{}{"op": "reconnect-after-sends-while-down", "config": rp, "transcript": srv2.Lines()}})
 							c.Res.Traces++
 						case <-time.After(3 * time.Second):
